@@ -136,6 +136,13 @@ def make_value(kind, name, c):
         return SymSeq(z3.Const(name, S.ISeq), "list", (0, 256))
     if k == "const":
         return kind[1]
+    if k == "small":        # ('small', lo, hi): concretised by forking one path per value
+        v = z3.Int(name)
+        c.assume(z3.And(v >= kind[1], v < kind[2]))
+        for kk in range(kind[1], kind[2] - 1):
+            if c.decide(v == kk):
+                return kk
+        return kind[2] - 1
     raise ValueError("unknown kind %r" % (kind,))
 
 
@@ -215,6 +222,8 @@ class _VcRuntime:
         """native containers named in havoc -> proxies, so invariants can use them"""
         out = dict(loc)
         for name, kind in spec.havoc.items():
+            if callable(kind):
+                kind = kind(self.entry_env)
             if name in out and isinstance(out[name], (list, bytes, bytearray, tuple)) \
                     and not isinstance(out[name], SymSeq):
                 k = kind[0] if isinstance(kind, tuple) else kind
@@ -236,6 +245,8 @@ class _VcRuntime:
             c.oblige("loop%d-inv-init:%s" % (k, name), g)
         # meta invariants: element bounds of havocked sequences must hold now
         for name, kind in spec.havoc.items():
+            if callable(kind):
+                kind = kind(self.entry_env)
             kk = kind[0] if isinstance(kind, tuple) else kind
             if kk in ("bytelist", "bytes", "bytearray") or (kk == "list" and isinstance(kind, tuple)):
                 lo, hi = (0, 256) if kk != "list" else (kind[1], kind[2])
@@ -248,6 +259,28 @@ class _VcRuntime:
         spec = self.contract.loops[k]
         c = ctx()
         kind = spec.havoc[name]
+        if callable(kind):
+            kind = kind(self.entry_env)
+        if kind == "rangeiter":
+            if not isinstance(cur, PB._SymRangeIter):
+                raise Undecided("havoc 'rangeiter' of a non-range iterator")
+            r = cur.r
+            if r.step != 1:
+                raise Undecided("havoc of range iterator with step != 1")
+            p = SymInt(z3.Int(c.fresh_name("%s.cur@L%d" % (name, k))))
+            lo, hi = as_z3_int(r.start), as_z3_int(r.stop)
+            c.assume(z3.And(p.e >= lo, z3.Or(p.e <= hi, p.e == lo)))
+            cur.cur = p
+            clo, chi = S._concrete(r.start), S._concrete(r.stop)
+            if clo is not None and chi is not None and chi - clo <= 256:
+                # small concrete range: one path per loop index (the invariant is
+                # then checked for every index separately -- still for all values)
+                for kk in range(clo, max(chi, clo)):
+                    if c.decide(p.e == kk):
+                        cur.cur = kk
+                        return cur
+                cur.cur = max(chi, clo)
+            return cur
         if kind == "iter":
             if not isinstance(cur, SymIter):
                 raise Undecided("havoc 'iter' of a non-symbolic iterator")
@@ -285,6 +318,8 @@ class _VcRuntime:
         for name, g in spec.invariant(env):
             c.oblige("loop%d-inv-preserve:%s" % (k, name), g)
         for name, kind in spec.havoc.items():
+            if callable(kind):
+                kind = kind(self.entry_env)
             kk = kind[0] if isinstance(kind, tuple) else kind
             if kk in ("bytelist", "bytes", "bytearray") or (kk == "list" and isinstance(kind, tuple)):
                 lo, hi = (0, 256) if kk != "list" else (kind[1], kind[2])
@@ -300,6 +335,10 @@ class _VcRuntime:
 
     # for-loops
     def mkiter(self, k, it):
+        if isinstance(it, (range, PB.SymRange)):
+            if isinstance(it, range):
+                it = PB.SymRange(it.start, it.stop, it.step)
+            return PB._SymRangeIter(it)
         if isinstance(it, SymSeq):
             return SymIter(it)
         if isinstance(it, (list, tuple, bytes, bytearray)):
